@@ -29,16 +29,22 @@ func judge(c *lib.Case, res map[string]outcome, expect, keyTail, what string, de
 		switch expect {
 		case "accept":
 			if !r.accepted {
-				d := detail()
-				d["entry_point"], d["error"] = ep, r.err
-				c.Violation("reject-valid:"+ep+":"+keyTail, "a valid payload was rejected: "+what, d)
+				ep, r := ep, r
+				violation(c, "reject-valid:"+ep+":"+keyTail, "a valid payload was rejected: "+what, func() map[string]any {
+					d := detail()
+					d["entry_point"], d["error"] = ep, r.err
+					return d
+				})
 				violated = true
 			}
 		case "reject":
 			if r.accepted {
-				d := detail()
-				d["entry_point"] = ep
-				c.Violation("accept:"+ep+":"+keyTail, "a payload that differs from every valid one in a bound part was accepted: "+what, d)
+				ep := ep
+				violation(c, "accept:"+ep+":"+keyTail, "a payload that differs from every valid one in a bound part was accepted: "+what, func() map[string]any {
+					d := detail()
+					d["entry_point"] = ep
+					return d
+				})
 				violated = true
 			}
 		}
@@ -489,8 +495,10 @@ func headerWithRoots(c *lib.Case, name string, o, m parts, class string) {
 	default:
 		c.Count("entry.header+roots.mutants."+w, 1)
 		if accepted {
-			c.Violation("accept:header+roots:"+name+":"+class, "ValidateSpaceHeader accepted a v1 header together with roots that are not the ones it embeds (or a modified header)",
-				map[string]any{"constructor": name, "class": class, "original": o.witness(), "offered": m.witness()})
+			violation(c, "accept:header+roots:"+name+":"+class, "ValidateSpaceHeader accepted a v1 header together with roots that are not the ones it embeds (or a modified header)",
+				func() map[string]any {
+					return map[string]any{"constructor": name, "class": class, "original": o.witness(), "offered": m.witness()}
+				})
 		}
 	}
 }
